@@ -435,8 +435,7 @@ class ISD(model.Document):
   def _make_ruby_conformant(
       isd: model.Document,
       isd_element: typing.Union[model.Ruby, model.Rtc],
-      children: typing.List[model.ContentElement],
-      is_base_container_retained: bool = False
+      children: typing.List[model.ContentElement]
     ) -> typing.Tuple[typing.Optional[model.ContentElement], typing.List[model.ContentElement]]:
     """Returns the element and children to use when some of the children of the ruby element or ruby text container
     `isd_element` are not part of the ISD, e.g. because they are not temporally active, so that the remaining
@@ -488,17 +487,9 @@ class ISD(model.Document):
 
     isd_element.copy_to(span)
 
-    # each ruby base becomes a span; unless it still carries timing, as in a document that is not an ISD, a ruby base container
-    # is not retained since the style properties that apply to it are not those that apply to a span
+    # each ruby base, and the ruby base container if any, becomes a span
 
-    if base is rb or is_base_container_retained:
-      return (span, [_as_span(base)])
-
-    bases = list(base)
-
-    base.remove_children()
-
-    return (span, [_as_span(b) for b in bases])
+    return (span, [_as_span(base)])
 
   @staticmethod
   def _process_element(
@@ -737,6 +728,15 @@ class ISD(model.Document):
       if isd_element is None:
         return None
 
+      # the styles that do not apply to the ruby bases and the ruby base container are removed now that it is known whether they
+      # remain ruby bases or have become spans
+
+      for child in isd_element_children:
+        _remove_inapplicable_styles(child)
+        if isinstance(child, (model.Rbc, model.Span)):
+          for grandchild in child:
+            _remove_inapplicable_styles(grandchild)
+
     if len(isd_element_children) > 0:
       isd_element.push_children(isd_element_children)
 
@@ -746,11 +746,10 @@ class ISD(model.Document):
         _process_lwsp(text_node_list)
         _prune_empty_spans(isd_element)
 
-    # remove styles that are not applicable
+    # remove styles that are not applicable, except from ruby bases and ruby base containers, which may yet become spans
 
-    for style_prop in list(isd_element.iter_styles()):
-      if not isd_element.is_style_applicable(style_prop):
-        isd_element.set_style(style_prop, None)
+    if not isinstance(isd_element, (model.Rb, model.Rbc)):
+      _remove_inapplicable_styles(isd_element)
     
     # prune or keep the element
 
@@ -767,6 +766,13 @@ class ISD(model.Document):
       return isd_element
 
     return None
+
+def _remove_inapplicable_styles(element: model.ContentElement):
+  if isinstance(element, model.Text):
+    return
+  for style_prop in list(element.iter_styles()):
+    if not element.is_style_applicable(style_prop):
+      element.set_style(style_prop, None)
 
 def _prune_empty_spans(element: model.ContentElement):
   children = list(element)
@@ -1549,7 +1555,7 @@ def _clone_doc_with_one_region(doc: model.ContentDocument, region_id: str):
 
       # some children of the ruby element or ruby text container may be associated with another region
 
-      new_element, new_children = ISD._make_ruby_conformant(new_doc, new_element, new_children, True)
+      new_element, new_children = ISD._make_ruby_conformant(new_doc, new_element, new_children)
 
       if new_element is None:
         return None
